@@ -379,7 +379,7 @@ def main(tier="quick", seed=0):
             seen.add(k)
             pools.setdefault(len(c["d"][0][1]), []).append((c["d"], c["e"]))
     cfgs = c12_configs()
-    per_cfg = 220 if quick else 6000
+    per_cfg = 160 if quick else 6000
     jobs = []
     for ci, cfg in enumerate(cfgs):
         n_annot = 2 if cfg["task"] == "multi" else 1
